@@ -123,25 +123,33 @@ class NsHandler:
             return tag[0:1].upper() + tag[1:]
         return tag
 
+    @staticmethod
+    def _strip(text):
+        "strip whitespace and left-to-right/right-to-left marks, in whatever order they come"
+        while True:
+            stripped = text.strip().strip("\u200e\u200f")
+            if stripped == text:
+                return text
+            text = stripped
+
     def splitname(self, title, defaultns=0):
         if not isinstance(title, str):
             title = title.decode('utf-8') if isinstance(title, bytes) else str(title)
-        name = re.sub(r' +', ' ', title.replace("_", " ").strip())
+        name = re.sub(r' +', ' ', self._strip(title.replace("_", " ")))
         if name.startswith(":"):
-            name = name[1:].strip()
+            name = self._strip(name[1:])
             defaultns = 0
 
         if ":" in name:
             namespace, partial_name = name.split(":", 1)
             was_namespace, nsnum, prefix = self._find_namespace(namespace,
                                                                 defaultns=defaultns)
-            suffix = partial_name.strip() if was_namespace else name
+            suffix = self._strip(partial_name) if was_namespace else name
         else:
             prefix = self.siteinfo["namespaces"][str(defaultns)]["*"]
             suffix = name
             nsnum = defaultns
 
-        suffix = suffix.strip("\u200e\u200f")
         suffix = self.maybe_capitalize(suffix)
         if prefix:
             prefix += ":"
